@@ -20,3 +20,84 @@ def install(interp):
     def m_binary(interp, st, args, kwargs):
         yield st, args[0]       # sqlite3.Binary is memoryview: a view of the same bytes
     interp.models[sqlite3.Binary] = m_binary
+    install_hashlib(interp)
+
+
+# ------------------------------------------------------------------------------ hashlib
+
+import hashlib
+
+HASH_SIZES = {'sha256': 32, 'sha512': 64, 'sha384': 48, 'sha1': 20, 'md5': 16, 'ripemd160': 20, 'sha224': 28}
+_HASH_UF = {}
+
+
+def hash_uf(alg):
+    if alg not in _HASH_UF:
+        _HASH_UF[alg] = z3.Function(f"H_{alg}", z3.StringSort(), z3.StringSort())
+    return _HASH_UF[alg]
+
+
+def new_hash(interp, st, alg, data=None):
+    from .segs import segs_of
+    alg = alg.lower()
+    if alg not in HASH_SIZES:
+        raise Unsupported(f"hash algorithm {alg}")
+    interp.builtins_used.add(f"hashlib.{alg}")
+    ref = st.alloc(HCell('hash', dict(alg=alg, fed=[])))
+    if data is not None and data is not VNone:
+        segs = segs_of(data)
+        if segs is None:
+            return exc(TypeError, "Strings must be encoded before hashing")
+        st.heap[ref.addr].data['fed'] = list(segs)
+    return ref
+
+
+def hash_method(interp, st, ref, cell, name, args, kwargs, node=None):
+    from .segs import segs_of, VSegs, to_vbytes, from_segs
+    alg = cell.data['alg']
+    if name == 'update':
+        segs = segs_of(args[0])
+        if segs is None:
+            yield st, exc(TypeError, "Strings must be encoded before hashing")
+            return
+        if interp.write_log is not None:
+            interp.write_log.add(('heap', ref.addr, None))
+        cell.data['fed'] = cell.data['fed'] + list(segs)
+        yield st, VNone
+        return
+    if name in ('digest', 'hexdigest'):
+        fed = from_segs(cell.data['fed'])
+        size = HASH_SIZES[alg]
+        if fed.concrete:
+            d = hashlib.new(alg, unlift(fed)).digest()
+            yield st, (VBytes(d) if name == 'digest' else VStr(d.hex()))
+            return
+        t = hash_uf(alg)(to_vbytes(fed).term() if isinstance(fed, VSegs) else fed.term())
+        if name == 'digest':
+            yield st, VSegs([('sym', t, size)])
+        else:
+            from . import builtins_model as bm
+            yield st, VStr(bm._HEX(t))
+        return
+    if name == 'copy':
+        yield st, st.alloc(HCell('hash', dict(alg=alg, fed=list(cell.data['fed']))))
+        return
+    if name in ('digest_size',):
+        yield st, VInt(HASH_SIZES[alg])
+        return
+    raise Unsupported(f"hash object method {name}", node)
+
+
+def install_hashlib(interp):
+    def mk(alg):
+        def h(interp, st, args, kwargs):
+            data = args[0] if args else kwargs.get('data')
+            yield st, new_hash(interp, st, alg, data)
+        return h
+    for alg in ('sha256', 'sha512', 'sha384', 'sha1', 'md5'):
+        interp.models[getattr(hashlib, alg)] = mk(alg)
+
+    def h_new(interp, st, args, kwargs):
+        data = args[1] if len(args) > 1 else kwargs.get('data')
+        yield st, new_hash(interp, st, unlift(args[0]), data)
+    interp.models[hashlib.new] = h_new
